@@ -337,8 +337,8 @@ Definition mismatches (check_err : bool) (login pass : string) (ops : list rop) 
 Definition spec_ok (login pass : string) (c : rcase) : bool :=
   let o := c_obs c in
   let st := o_status o in
-  if exact_credentials login pass (q_auth (c_req c)) then
-    has_char ":"%char login
+  if carries_credentials login pass (q_auth (c_req c)) then
+    has_char ":"%char login || negb (exact_credentials login pass (q_auth (c_req c)))
     || negb (N.eqb st 401 || N.eqb st 400) && (o_handler o || N.eqb st 404 || N.eqb st 405)
   else negb (o_handler o) && N.eqb (o_backend o) 0
        && (N.eqb st 401 || N.eqb st 400 || N.eqb st 404 || N.eqb st 405).
@@ -362,6 +362,6 @@ Definition auth_mismatches (check_err : bool) (login pass : string) (cs : list a
     then [] else [a_id c]) cs.
 Definition auth_spec_violations (login pass : string) (cs : list acase) : list N :=
   flat_map (fun c =>
-    if exact_credentials login pass (a_auth c)
-    then (if has_char ":"%char login || a_next c then [] else [a_id c])
+    if carries_credentials login pass (a_auth c)
+    then (if has_char ":"%char login || negb (exact_credentials login pass (a_auth c)) || a_next c then [] else [a_id c])
     else (if negb (a_next c) && (N.eqb (a_status c) 401 || N.eqb (a_status c) 400) then [] else [a_id c])) cs.
